@@ -65,6 +65,7 @@ type writeRec struct {
 }
 
 type Gen struct {
+	alias map[string]string // the contract's name for a parameter or local -> the name the code uses now (positional binding)
 	W                 *World
 	fn                *ssa.Function
 	fc                *FuncContract
